@@ -246,37 +246,44 @@ pub fn one_run<U: CircuitUni>(ctx: &Ctx, idx: u64, c09: bool, out: &mut RunOut) 
 pub fn npo_run(ctx: &Ctx, idx: u64, c09: bool, out: &mut RunOut) {
     use crate::props::c08;
     let mut rng = Rng::new(ctx.seed, "C10-npo", idx);
-    let uni = ["U-KB4", "U-BB4", "U-KB4-A4"][(idx % 3) as usize];
-    let shape = c08::draw_shape(&mut rng, uni, ctx.tier);
+    // library Merkle openings over five table flavours; the recompose tables packed 1, 2 or 3 per row
+    let uni = ["U-KB4", "U-BB4", "U-KB4-A4", "U-KB5Q", "U-KB4-P1"][(idx % 5) as usize];
+    let recompose_lanes = [1usize, 2, 3][(idx / 5 % 3) as usize];
+    let shape = c08::draw_shape(&mut rng, if uni == "U-KB5Q" || uni == "U-KB4-P1" { "U-KB4" } else { uni }, ctx.tier);
     let max_h = shape.dims.iter().map(|d| d.0).max().unwrap();
     let index = rng.usize_below(max_h);
     let hs = mix(mix(ctx.seed, idx), 0x6e70);
     foldhash::sim::set_seed(hs);
     let staged: Result<(), (String, String)> = (|| {
         macro_rules! go {
-            ($U:ty, $build:expr, $w32:expr) => {{
+            ($U:ty, $build:expr, $w32:expr, $p1:expr) => {{
                 let (circuit, traces) = match observe(|| $build) {
                     Ok(Ok(x)) => x,
                     Ok(Err(e)) if e.contains("sibling slots for") => return Err(("skip".to_string(), e)),
                     Ok(Err(e)) => return Err(("build_or_run".to_string(), e)),
                     Err(p) => return Err(("build_or_run_panic".to_string(), p)),
                 };
-                let cfg = ProverCfg { npo: BuilderOpts { poseidon: true, recompose: true }, poseidon_w32: $w32, alu_lanes: *[1usize, 2, 4].get((idx / 3 % 3) as usize).unwrap_or(&1), ..ProverCfg::default() };
+                let cfg = ProverCfg { npo: BuilderOpts { poseidon: true, recompose: true }, poseidon_w32: $w32, poseidon1: $p1, recompose_lanes, alu_lanes: *[1usize, 2, 4].get((idx / 3 % 3) as usize).unwrap_or(&1), ..ProverCfg::default() };
                 let (keys, info) = pipe::keygen::<$U>(&circuit, &cfg).map_err(|f| (f.stage.name().to_string(), f.msg))?;
                 let proof = pipe::prove::<$U>(&keys, &traces, &cfg, None).map_err(|f| (f.stage.name().to_string(), f.msg))?;
                 pipe::verify::<$U>(&proof, &cfg, &info.commitment).map_err(|f| (f.stage.name().to_string(), f.msg))
             }};
         }
         match uni {
-            "U-BB4" => go!(crate::uni::Bb4, c08::bb4::build_and_run(&shape, index), false),
-            "U-KB4-A4" => go!(crate::uni::Kb4, c08::kb4a4::build_and_run(&shape, index), true),
-            _ => go!(crate::uni::Kb4, c08::kb4::build_and_run(&shape, index), false),
+            "U-BB4" => go!(crate::uni::Bb4, c08::bb4::build_and_run(&shape, index), false, false),
+            "U-KB4-A4" => go!(crate::uni::Kb4, c08::kb4a4::build_and_run(&shape, index), true, false),
+            "U-KB5Q" => go!(crate::uni::Kb5q, c08::kb5q::build_and_run(&shape, index), false, false),
+            "U-KB4-P1" => go!(crate::uni::Kb4, c08::kb4p1::build_and_run(&shape, index), false, true),
+            _ => go!(crate::uni::Kb4, c08::kb4::build_and_run(&shape, index), false, false),
         }
     })();
     out.evals += 1;
     out.count("npo_merkle_circuits");
     match staged {
-        Ok(()) => out.count("npo_proved_and_verified"),
+        Ok(()) => {
+            out.count("npo_proved_and_verified");
+            out.count(&format!("npo_ok_{uni}_recompose_lanes_{recompose_lanes}"));
+        }
         Err((stage, _)) if stage == "skip" => out.count("npo_arity4_known_shape_skipped"),
         Err((stage, msg)) => {
             let class = err_kind(&msg);
